@@ -97,9 +97,16 @@ def check_solver(desc):
     f = rng.standard_normal(n) + (1j * rng.standard_normal(n) if desc["complex"] else 0)
     p, d = P["p"], P["d"]
     blocked = ent["blocked"]
+    mixed = blocked and desc["complex"] == "mixed"
     if blocked:
         np_ = p.global_dof_count
-        fl = [bempp_cl.api.GridFunction(p, coefficients=f[:np_]), bempp_cl.api.GridFunction(d, coefficients=f[np_:])]
+        if mixed:
+            # real first entry, complex second entry: the list has to be promoted to complex as a whole
+            f = f.astype(complex)
+            f[:np_] = np.real(f[:np_])
+            fl = [bempp_cl.api.GridFunction(p, coefficients=np.real(f[:np_]).astype(float)), bempp_cl.api.GridFunction(d, coefficients=f[np_:])]
+        else:
+            fl = [bempp_cl.api.GridFunction(p, coefficients=f[:np_]), bempp_cl.api.GridFunction(d, coefficients=f[np_:])]
         b = A * fl
         doms = [p, d]
         Mblk = np.block([[P["Mp"], np.zeros((np_, n - np_))], [np.zeros((n - np_, np_)), P["Md"]]])
@@ -139,7 +146,7 @@ def check_solver(desc):
         err = np.linalg.norm(x - f) / fn
         if err > 1e-12 * max(cond, 10):
             _fail(f"lu/roundtrip/{'blocked' if blocked else 'single'}", f"lu(A, A*f) differs from f by {err:.2e} (cond {cond:.1e})")
-        return {"nontrivial": blocked or desc["complex"], "labels": labels + (["blocked"] if blocked else []) + (["complex"] if desc["complex"] else [])}
+        return {"nontrivial": bool(blocked or desc["complex"]), "labels": labels + (["blocked"] if blocked else []) + (["complex"] if desc["complex"] else []) + (["mixed_real_complex_list"] if mixed else [])}
     tol = desc["tol"]
     strong = desc["strong"]
     kw = {"tol": tol, "use_strong_form": strong, "return_residuals": True, "return_iteration_count": True}
@@ -199,7 +206,9 @@ def check_solver(desc):
         labels.append("blocked")
     if desc["complex"]:
         labels.append("complex")
-    return {"nontrivial": blocked or strong or desc["complex"] or tol <= 1e-8, "labels": labels}
+    if mixed:
+        labels.append("mixed_real_complex_list")
+    return {"nontrivial": blocked or strong or bool(desc["complex"]) or tol <= 1e-8, "labels": labels}
 
 
 CHECKS = {"solver": check_solver}
@@ -228,7 +237,7 @@ def strategy(spec):
         "restart": st.sampled_from([None, 5, 20]),
         "maxiter": st.sampled_from([None, 3, 200]),
         "strong": st.booleans(),
-        "complex": st.booleans(),
+        "complex": st.sampled_from([False, True, True, "mixed"]),
         "seed": st.integers(0, 999),
     })
 
